@@ -30,7 +30,90 @@ CLAIMED = {
         "Hooks registered through AddPublishHook are assumed not to touch the waiter registry. "+TRUST,
    design="4/C10"),
 }
-REASONS = {}
+CLAIMED.update({
+ "C01": dict(
+   text="Deductive proof of the sequential functions at-least-once delivery rests on: PublishMessage.Execute stores exactly one message and fans it out to every live subscription of the topic "
+        "(one delivery per subscription whose filter accepts it, none otherwise; loop invariant over the subscription list, unbounded); deliverToSubscription creates exactly one open, unexpired, immediately "
+        "due delivery for (message, subscription); the pull candidate query returns every open, unexpired, due (and, when ordered, unblocked) delivery of the subscription when it returns fewer than MaxMessages; "
+        "PruneCompletedDeliveries never removes an open delivery. Together: an unacknowledged, unexpired delivery stays selectable by every later pull.",
+   note="Whole-history/liveness part (a pull eventually happens, streaming pull loops, applyResults re-leasing) is not under contract; concurrency between transactions is not explored (the SQL engine's isolation is assumed: one Execute = one atomic step). "+TRUST,
+   design="4/C01"),
+ "C02": dict(
+   text="Deductive proof that the pull candidate query (queryAndLockDeliveriesOnce) returns only open, unexpired, due deliveries of exactly the pulled subscription, at most MaxMessages of them, pairwise distinct, "
+        "with the message row of each loaded verbatim (payload, attributes, order key, id = the stored message's); that publish/dead-letter create deliveries only for subscriptions of the message's topic / the configured dead-letter topic whose filter accepts the message; "
+        "and that seek-to-time/seek-to-snapshot change deliveries of the named subscription only (frame conditions over the deliveries table).",
+   note="entDeliveryToGrpc (JSON payload re-encoding) and the Pull/StreamingPull loops are not under contract; 'the same JSON value' across the database JSON codec is assumed. Isolation between concurrent transactions assumed. "+TRUST,
+   design="4/C02"),
+ "C03": dict(
+   text="Deductive proof of AckDeliveries.Execute: exactly the listed deliveries that are still open are completed (completed_at set to one instant read from the clock), every other delivery row and every other column is unchanged "
+        "(whole-table postcondition with frame), an already completed delivery is never reopened, and unknown ids are ignored.",
+   note="The gRPC adaptation of ack ids (streamWrapper.adaptIn, Acknowledge parsing) is covered only for no-panic (C16); 'never delivered again' additionally relies on the pull query contract of C02 (completed deliveries are never candidates). "+TRUST,
+   design="4/C03"),
+ "C04": dict(
+   text="Deductive proof of NextDelayFor with machine-integer overflow checks on: the nominal delay is exactly trunc(min(maxBackoff, minBackoff x 1.1^n)) with the documented defaults, jitter is in [0, 1 s) and absent for delays <= 0.5 s "
+        "(float64 as reals, math.Pow axiomatised as real power); and of DelayDeliveries.Execute: a positive delay can only move attempt_at later, zero/negative sets it to now, only the listed open deliveries of the subscription change. "
+        "The pull query contract (C02) gives 'not handed out before attempt_at'.",
+   note="applyResults (attempt counter bump, new lease), NackDeliveries and exclusivity between concurrent pullers (row locks, SKIP LOCKED) are not under contract: schedules are outside this technique. Retry policies are bounded by 100 days (policy_domain precondition) so that Duration arithmetic cannot overflow. "+TRUST,
+   design="4/C04"),
+ "C05": dict(
+   text="Deductive proof that deliverToSubscription, for an ordered subscription and a keyed message, links the new delivery behind the latest unexpired delivery of the same subscription whose message has the same ordering key "
+        "(and to nothing when there is none), and that the pull candidate query returns, for an ordered subscription, only deliveries whose predecessor is absent, completed or expired. The predecessor clause refuted the pinned code twice "
+        "(predecessor chosen regardless of key; lookup restricted to the message's topic): both replayed against the real code and fixed (7cfe40f, 58b0799).",
+   note="Ordering across redelivery after nack and the streaming flow-control path are not under contract. Unkeyed messages and unordered subscriptions are unconstrained by design. "+TRUST,
+   design="4/C05"),
+ "C06": dict(
+   text="Deductive proof of the dead-letter routine deadLetterDelivery: the delivery is completed on the source subscription, exactly one delivery of the same message is created on every live subscription of the configured dead-letter topic "
+        "(via the deliverToSubscription contract), nothing else changes, and a wake-up is requested for the receiving subscriptions.",
+   note="The trigger (attempts >= max_delivery_attempts in the DeadLetterDeliveries sweep / pull path) is not under contract yet. "+TRUST,
+   design="4/C06"),
+ "C08": dict(
+   text="Deductive proof that CreateSubscription.Execute stores a filter only if it parses (filter_validated: the stored text is accepted by the parser intrinsic), and that publish evaluates exactly the stored filter through the C07 evaluator contracts.",
+   note="The filter printer (AsFilter / formatAttrName) and the parser itself (participle, reflection-driven) are outside the verifier's reach: print/parse round-trip is not decided. UpdateSubscription's filter path is covered for no-panic only. "+TRUST,
+   design="4/C08"),
+ "C09": dict(
+   text="Deductive proof, for 25 transaction bodies and helpers in actions/, that a failure reported by the storage layer on any statement is never swallowed: every Execute returns a non-nil error whenever a statement failed (ghost flag dbfailed), "
+        "and the commit hooks they register (notify, timers) act only after a successful commit (hook obligations: the hook is symbolically run in commit-failure and commit-success mode).",
+   note="ent.Client.DoTx / DoCtxTxRetry themselves (rollback on error, retry classification) are modelled as a trusted transaction idiom, not verified. Crash points inside the SQL engine are its responsibility. "+TRUST,
+   design="4/C09"),
+ "C12": dict(
+   text="Deductive proof of the resource lifecycle functions: CreateTopic/CreateSubscription refuse a live duplicate name and otherwise create exactly one live row; DeleteTopic/DeleteSubscription soft-delete exactly the named live row; findTopic returns the live row of that name; "
+        "and of the four listing handlers (ListTopics, ListTopicSubscriptions, ListSubscriptions, ListSnapshots): every page entry is a live resource of exactly the requested project after the page token, pages are ascending by id, at most the effective page size, "
+        "a full page contains every matching resource up to its last id and its token resumes strictly after it, a short page is complete and carries no token - so pages partition the listing exactly once for any page size. "
+        "The page_sound/page_complete clauses refuted the pinned ListSnapshots (wrong name prefix; replayed; fixed in 9b08ba1).",
+   note="Listing consistency is per page over one transaction snapshot; resources created or deleted between pages are outside the property. Name validity predicates (isValid*Name, regexp) are trusted. "+TRUST,
+   design="4/C12"),
+ "C13": dict(
+   text="Deductive proof of seek and snapshot: SeekSubscriptionToTime completes exactly the open deliveries of the subscription published at or before the time and reopens those published after it; CreateSnapshot records exactly the currently "
+        "acknowledged message ids of the subscription; SeekSubscriptionToSnapshot restores that acknowledged set; other subscriptions' deliveries are untouched (frame).",
+   note="Snapshot expiry and UpdateSnapshot are covered for no-panic only. "+TRUST,
+   design="4/C13"),
+ "C14": dict(
+   text="Deductive proof that subscription expiry follows the stored ttl: CreateSubscription stamps expires_at = now + ttl, deliverToSubscription computes delivery expiry from the subscription's message ttl, and DeleteExpiredSubscriptions soft-deletes exactly the live subscriptions whose expires_at has passed (and none other), waking their waiters.",
+   note="The activity refresh of expires_at in the pull path (execute) is not under contract. "+TRUST,
+   design="4/C14"),
+ "C15": dict(
+   text="Deductive proof of the six background prune jobs and the expiry sweep: each removes only rows its retention rule allows (completed/expired deliveries older than the cut-off, messages without deliveries, soft-deleted subscriptions/topics older than the cut-off and without dependants), "
+        "never an open unexpired delivery or a live resource, and leaves every other row unchanged (whole-table postconditions).",
+   note="Scheduling of the jobs (cron service) and their mutual interleaving are not explored; each job is one atomic transaction by assumption. "+TRUST,
+   design="4/C15"),
+ "C16": dict(
+   text="Deductive no-panic proof of 22 Publisher/Subscriber gRPC handlers and 3 entity mappers for every request message protobuf decoding can produce (any field nil, empty, negative) and every database content satisfying the stated table invariants: "
+        "nil dereference, index, slice, map-write, type assertion, explicit panic() in constructors reached from the handler, division - each is a named obligation. This refuted the pinned code at 11 requests (six fix commits, replayed).",
+   note="StreamingPull, the HTTP push path and the interceptor chain (grpc/faults.go, recovery) are not under contract. Dependencies are assumed panic-free on arguments satisfying their intrinsic preconditions. "+TRUST,
+   design="4/C16"),
+ "C17": dict(
+   text="Deductive proof that CreateSubscription.Execute / CreateTopic.Execute store exactly the configuration given (every configuration column of the created row equals the corresponding parameter; absent options are stored as absent) and that entTopicToGrpc returns the stored name and labels.",
+   note="Update masks (UpdateSubscription/UpdateTopic apply only the named paths), the subscription mapper's full field map and the interval SQL codec (sqltypes.Interval Value/Scan) are not under contract yet. "+TRUST,
+   design="4/C17"),
+})
+CLAIMED["C10"]["text"] += (" W2: every state-changing action that can make a delivery available (publish, dead-letter, delay to now, seek, prune-expired, expiry, create/delete subscription, ack on ordered subscriptions) requests a wake-up of the affected subscription "
+        "and does so through a commit hook that fires only after a successful commit (hook obligations).")
+CLAIMED["C07"]["text"] += " deliverToSubscription is proved to use exactly that evaluator on the stored filter and the message's attributes."
+REASONS = {
+ "C11": "no contract within reach decides it: the property is about the interleaving of the streaming-pull goroutines (flow-control window accounting across concurrent Send/ack handlers); the verifier built here is sequential (one function, one thread), and the accounting lives in closures communicating over channels. Not claimed rather than switching technique.",
+ "C19": "the HTTP push connection (httpPushStreamConn.Send/Receive) interleaves goroutines, net/http and JSON encoding; no per-function contract of those was built. Not claimed.",
+}
+
 def reason(pid):
     return REASONS.get(pid, "check not built yet (framework under construction; see DESIGN.md section 7 build order)")
 hooks_commits = subprocess.run(["git","-C","/repo","log","--format=%H %s","c32c2b2..HEAD"],capture_output=True,text=True).stdout.strip().splitlines()
